@@ -126,6 +126,7 @@ class SimClock:
         # datetime or for UTC can tell)
         self.hour = 12
         self.utc_offset = _dt.timedelta(0)
+        self.as_datetime = False
 
     def fail(self, exc: BaseException):
         self.fail_next = exc
@@ -163,6 +164,10 @@ class SimClock:
         if k in self.script:
             self.today = self.script.pop(k)
         self.trace.append(self.today)
+        if self.as_datetime:
+            # a clock like datetime.now: a datetime is a date, too
+            return _dt.datetime.combine(
+                self.today, _dt.time(self.hour, 30))
         return self.today
 
 
